@@ -1,7 +1,7 @@
 """Runner configuration of property C02 (loaded by tools/props.py; one file per property so that
 concurrent edits never collide)."""
 PROPS["C02"] = dict(
-    level_text="Theorems (Props/C02.lean) prove, for EVERY event sequence of the connection model (inductive invariant `Inv` over `step`, lifted to all runs) and the full 32768-id space: the bitmap allocator returns the least free id and fails iff all ids are used, `free` clears exactly one bit (bit level refines the abstract set); two unanswered requests never share a stream id (including after cancellation before enqueue / before write / after write / after the response); the reader's lookup for an answer the server owes finds exactly the handler of the request it answers (or the orphan mark) and never `Missing`; a frame on a stream the server does not owe never reaches a handler; any caller that completes with a frame holds the frame produced for its own request; the Rust assert in `allocate` cannot fire; exhaustion gives UnableToAllocStreamId and leaves the map unchanged. The model is tied to connection.rs by a differential run at hook level (ResponseHandlerMap op sequences: exhaustive over 3 request ids / 3 streams up to length 5, random, full 32768-id exhaustion) and end to end (the real router/reader/writer/orphaner over an in-memory stream, requests through the real send_request, under a deterministic schedule that covers all four cancellation points, out-of-order answers, unsolicited frames, blocked writes), each with a model-independent oracle.",
+    level_text="Theorems (Props/C02.lean) prove, for EVERY event sequence of the connection model (inductive invariant `Inv` over `step`, lifted to all runs) and the full 32768-id space: the bitmap allocator returns the least free id and fails iff all ids are used, `free` clears exactly one bit (bit level refines the abstract set); two unanswered requests never share a stream id (including after cancellation before enqueue / before write / after write / after the response); the reader's lookup for an answer the server owes finds exactly the handler of the request it answers (or the orphan mark) and never `Missing`; a frame on a stream the server does not owe never reaches a handler; any caller that completes with a frame holds the frame produced for its own request; the Rust assert in `allocate` cannot fire; exhaustion gives UnableToAllocStreamId and leaves the map unchanged. The model is tied to connection.rs by a differential run at hook level (ResponseHandlerMap op sequences: exhaustive over 3 request ids / 3 streams up to length 5, random, full 32768-id exhaustion) and end to end (the real router/reader/writer/orphaner over an in-memory stream, requests through the real send_request, under a deterministic schedule that covers all four cancellation points, out-of-order answers, unsolicited frames, blocked writes, and - in both tiers - 300 to 1030 requests in flight before the first answer, so that the highest stream id on the wire crosses 255/256/257, 511/512/513 and 1023/1024/1025; the scripted server checks on every frame it reads that no two unanswered frames carry the same stream id), each with a model-independent oracle.",
     level_note="Trusted: Lean kernel + {propext, Classical.choice, Quot.sound}; hand-written models Model/StreamMap.lean, Model/Conn.lean (tie = differential harness through cfg(scylla_verif) hooks StreamMap / RawConnection). Each critical section of reader/writer/orphaner is one atomic model step (they run on one task and never hold the map lock across an await); tokio scheduling, socket buffering and memory-model effects are outside the model. The abstract server answers only stream ids it has received, at most once each.",
     lean_modules=["ScyllaVerif.Props.C02"],
     rule="case = one operation sequence (hook level `map`, or end-to-end schedule `conn`); distinct case lines whose implementation output contains at least one routed response (`H<req>` / `ok:`) count as non-trivial",
